@@ -64,6 +64,19 @@ func c15r1(r *R) {
 			a := callOf(i).Args
 			o.Check(c.Expr(a[0]) == "p0.reverseProxy" && c.Expr(a[1]) == "p1" && c.Expr(a[2]) == "p2", "forward call is %s, want reverseProxy.ServeHTTP(w, req) with the handler's own arguments", c.Expr(i.(ssa.Value)))
 			o.Check(probeFalse, "the forward is on the probe path; guards %v", gs)
+			// the forward is reached exactly by the two negations of the probe test, nothing else decides
+			for _, p := range i.Block().Preds {
+				eg := edgeGuards(c, p, i.Block())
+				if len(eg) == 0 {
+					continue
+				}
+				last := eg[len(eg)-1]
+				okEdge := last == "-(nil != p0.IsProbeRequest)" || last == "-dyn:p0.IsProbeRequest(p2)"
+				o.Check(okEdge, "a request is forwarded instead of being answered locally because of the extra condition %s: only `IsProbeRequest == nil` or `!IsProbeRequest(req)` may send a request to the backend", last)
+				for _, g := range eg[:len(eg)-1] {
+					o.Check(g == "+(nil != p0.IsProbeRequest)", "forward edge additionally depends on %s", g)
+				}
+			}
 			o.Check(len(gs) == 0 || !hasGuardContaining(gs, "+", "IsProbeRequest"), "forward guarded by %v", gs)
 		case isCall(i, nWriteHeader):
 			nAnswer++
@@ -72,6 +85,7 @@ func c15r1(r *R) {
 			code, ok := constInt(a[1])
 			o.Check(c.Expr(a[0]) == "p1" && ok && code == 200, "local answer status is %s, want 200 on the handler's ResponseWriter", c.Expr(a[1]))
 			o.Check(probeTrue, "the local answer is not guarded by IsProbeRequest != nil && IsProbeRequest(req); guards %v", gs)
+			o.Check(onlyGuards(c, i.Block(), "+dyn:p0.IsProbeRequest(p2)", "+(nil != p0.IsProbeRequest)") == "", "the local answer additionally depends on %s", onlyGuards(c, i.Block(), "+dyn:p0.IsProbeRequest(p2)", "+(nil != p0.IsProbeRequest)"))
 		case isCall(i, nRWWrite):
 			o.AtI(i)
 			a := callArgs(callOf(i))
